@@ -54,11 +54,33 @@ Proof. split; reflexivity. Qed.
 Lemma default_allowed_doc v : nmem v (map norm default_allowed_numbers) = nmem v (map norm doc_default_allowed).
 Proof. apply nmem_same_set; vm_compute; reflexivity. Qed.
 
+(* the fallback chains read from MagicNumberConfig.from_dict: language section, then top level, then default *)
+Lemma gen_chains :
+  (cfg_allowed_chain_lang, cfg_max_small_chain_lang, cfg_allowed_chain_top, cfg_max_small_chain_top)
+  = (["lang"; "top"; "default"], ["lang"; "top"; "default"], ["top"; "default"], ["top"; "default"])
+  /\ cfg_language_keys = ["python"; "typescript"; "javascript"; "rust"].
+Proof. split; reflexivity. Qed.
+
+Lemma raw_allowed_pick cfg :
+  raw_allowed cfg = spec_pick (match c_lang cfg with Some (la, _) => la | None => None end) (c_allowed cfg) default_allowed_numbers.
+Proof.
+  unfold raw_allowed, spec_pick. replace cfg_allowed_chain_lang with ["lang"; "top"; "default"] by reflexivity.
+  replace cfg_allowed_chain_top with ["top"; "default"] by reflexivity.
+  destruct (c_lang cfg) as [[[la|] lm]|], (c_allowed cfg); reflexivity.
+Qed.
+
 Lemma allowed_spec cfg v : nmem v (allowed cfg) = nmem v (spec_allowed cfg).
-Proof. unfold allowed, spec_allowed. destruct (c_allowed cfg); [reflexivity | apply default_allowed_doc]. Qed.
+Proof.
+  unfold allowed, spec_allowed. rewrite raw_allowed_pick. unfold spec_pick.
+  destruct (c_lang cfg) as [[[la|] lm]|], (c_allowed cfg); try reflexivity; apply default_allowed_doc.
+Qed.
 
 Lemma max_small_spec cfg : max_small cfg = spec_max_small cfg.
-Proof. unfold max_small, spec_max_small. destruct (c_max_small cfg); reflexivity. Qed.
+Proof.
+  unfold max_small, spec_max_small, spec_pick. replace cfg_max_small_chain_lang with ["lang"; "top"; "default"] by reflexivity.
+  replace cfg_max_small_chain_top with ["top"; "default"] by reflexivity.
+  destruct (c_lang cfg) as [[la [lm|]]|], (c_max_small cfg); reflexivity.
+Qed.
 
 (* ------------------------------------------------------------------ names *)
 Lemma upper_not_lower c : is_upper_char c = true -> is_lower_char c = false.
